@@ -41,7 +41,7 @@ Print Assumptions C10_index_range_covers.
    holds the chunk; the saved state never claims more than the cache file holds (start-up rewrites the state whenever
    it does not load it); every completed ReadAt returned the blob's bytes. *)
 Theorem C10_sparse_inv : forall H idx blob maxsz store sched,
-  index_describes H idx blob -> store_sound H store -> (forall k i, store k i <> SFail code_bare_eof) ->
+  index_describes H idx blob -> store_sound H store ->
   let nullid := snd (new_null_chunk H maxsz) in
   loader_inv idx nullid blob (run (step idx nullid store) sched (init idx)) \/ Collision H.
 Proof. exact sparse_inv. Qed.
@@ -50,12 +50,11 @@ Print Assumptions C10_sparse_inv.
 (* sparse_read_sound.  Spelled out for one ReadAt: whatever happened before and concurrently (interleavings,
    transient store failures, WriteState at any point, every restart of the kind above, preload), a ReadAt(len, off)
    that reports success (nil or io.EOF) returned exactly blob[off, off+n) with n = min(len, L-off) and io.EOF iff
-   n < len -- never the zeros of an unpopulated range.  No premise on the schedule.  Premise on the store: its errors
-   are never the value io.EOF itself (code_bare_eof) -- ReadAt hands a store error to its caller unchanged, and
-   (0, io.EOF) IS the observation "end of file": see C10_store_eof_refuted (finding).  Errors that merely wrap io.EOF
-   (what a StoreRouter reports) are covered. *)
+   n < len -- never the zeros of an unpopulated range.  No premise on the schedule, none on the store's error values:
+   a store error that IS io.EOF is reported as io.ErrUnexpectedEOF (61c4b65; before: C10_store_eof_refuted), one that
+   wraps io.EOF is passed on as it is. *)
 Theorem C10_sparse_read_sound : forall H idx blob maxsz store sched off len d eof,
-  index_describes H idx blob -> store_sound H store -> (forall k i, store k i <> SFail code_bare_eof) ->
+  index_describes H idx blob -> store_sound H store ->
   let nullid := snd (new_null_chunk H maxsz) in
   In (RqRead off len, ROk d eof) (s_log (run (step idx nullid store) sched (init idx))) ->
   off + Z.of_nat len < two64 ->
@@ -87,7 +86,7 @@ Print Assumptions C10_sparse_failed_load.
    leaves no done bit: after a failed load a later read of that range calls the store again, or is served by another
    successful call, or fails -- it never succeeds on the unpopulated zeros. *)
 Theorem C10_sparse_retry : forall idx nullid store sched off len d eof,
-  tiles_from 0 idx -> (forall k i, store k i <> SFail code_bare_eof) ->
+  tiles_from 0 idx ->
   let s := run (step idx nullid store) sched (init idx) in
   In (RqRead off len, ROk d eof) (s_log s) ->
   0 <= off -> (1 <= len)%nat -> off + Z.of_nat len < two64 ->
@@ -141,7 +140,7 @@ Proof. vm_compute. repeat split. Qed.
    variants (Model/SparsePre.v; bin/check reproduces each on the code with the commit reverted), each next to the same
    schedule on the current model. *)
 Definition pre_run (fix_range fix_state : bool) (idx : index) (sched : list label) : sstate :=
-  run (step_pre idx ex_null ex_store fix_range fix_state) sched (init idx).
+  run (step_pre idx ex_null ex_store fix_range fix_state true) sched (init idx).
 
 (* before 2f69527: a zero-length ReadAt at (or past) the end indexes chunks[len(chunks)] *)
 Theorem C10_zero_length_read_at_eof_refuted :
@@ -215,13 +214,17 @@ Example C10_example_waiter_behind_failed_leader :
   s_log s = [(RqRead 1 1, ROk [6]%N false); (RqRead 0 2, RErr (XStore 2))] /\ s_calls s = 2%nat.
 Proof. vm_compute. split; reflexivity. Qed.
 
-(* FINDING (store error io.EOF): a store that fails with the value io.EOF itself (a remote that went away, not behind a
-   StoreRouter) makes ReadAt return (0, io.EOF) for a range inside the blob -- to the caller (e.g. the mount-sparse
-   node, which answers OK with 0 bytes) a successful read that reached the end of the file.  The same defect was
-   repaired in the index reader by 898d634; the sparse loader still has it. *)
+(* before 61c4b65: a store that fails with the value io.EOF itself (a remote that went away, not behind a StoreRouter)
+   made ReadAt return (0, io.EOF) for a range inside the blob -- to the caller (e.g. the mount-sparse node, which answers
+   OK with 0 bytes) a successful read that reached the end of the file. *)
 Definition ex_store_eof : store_t := fun k i => if (k =? 0)%nat then SFail code_bare_eof else ex_store k i.
 Theorem C10_store_eof_refuted :
   exists sched d eof,
-    hd_error (s_log (run (step ex_idx ex_null ex_store_eof) sched (init ex_idx))) = Some (RqRead 0 2, ROk d eof) /\
+    hd_error (s_log (run (step_pre ex_idx ex_null ex_store_eof true true false) sched (init ex_idx))) =
+      Some (RqRead 0 2, ROk d eof) /\
     length d <> Nat.min 2 (length ex_blob - 0).
 Proof. exists ([LSubmit 0 (RqRead 0 2)] ++ T0x 4), [], true. vm_compute. split; [reflexivity|discriminate]. Qed.
+Example C10_store_eof_now :
+  s_log (run (step ex_idx ex_null ex_store_eof) ([LSubmit 0 (RqRead 0 2)] ++ T0x 4 ++ [LSubmit 0 (RqRead 0 2)] ++ T0x 6) (init ex_idx)) =
+  [(RqRead 0 2, ROk [5; 6]%N false); (RqRead 0 2, RErr XUnexpectedEOF)].
+Proof. vm_compute. reflexivity. Qed.
